@@ -114,7 +114,7 @@ def main():
             dict(name="E1", path="mc/e1.py", kind_free_text="bounded-exhaustive generation-tree explorer over inputs, executed on the real parser", serves_properties=[c["property_id"] for c in checks if "E1" in c["engine"]]),
             dict(name="E2", path="mc/props/ (c11, c17, c18, c19, c20; child mc/imp_child.py)", kind_free_text="explicit-state BFS over histories (operations, parses, imports, edits) of the real code", serves_properties=[c["property_id"] for c in checks if "E2" in c["engine"]]),
             dict(name="E3", path="mc/automata.py + mc/linelang.py", kind_free_text="captured recognisers -> NFA, product-automaton reachability, witnesses replayed on the real line parsers", serves_properties=[c["property_id"] for c in checks if "E3" in c["engine"]]),
-            dict(name="E1-M", path="mc/envs.py", kind_free_text="environment invariance on a fixed arithmetic slice of an E1 / model-equality enumeration: every 16th-64th executed case again under 9 environments (CRLF, unknown sections in front / behind, from_filepath with Path / BOM / str, after another valid chart, after a failed parse, after itself), differential against the plain parse", serves_properties=["C02", "C03", "C04", "C05", "C06", "C07", "C08", "C09", "C10", "C11", "C12", "C15"]),
+            dict(name="E1-M", path="mc/envs.py", kind_free_text="environment invariance on a fixed arithmetic slice of an E1 / model-equality enumeration: every 16th-64th executed case again under 10 environments (CRLF, unknown sections in front / behind, from_filepath with Path / BOM / str, DEBUG logging on, after another valid chart, after a failed parse, after itself), differential against the plain parse", serves_properties=["C02", "C03", "C04", "C05", "C06", "C07", "C08", "C09", "C10", "C11", "C12", "C15"]),
             dict(name="E4", path="mc/sched.py", kind_free_text="preemption-bounded schedule explorer for real threads (trace-function baton)", serves_properties=[c["property_id"] for c in checks if "E4" in c["engine"]]),
         ],
         checks=checks,
